@@ -33,6 +33,7 @@ def _norm_case(c: dict) -> dict:
         c[k] = [int(v) for v in c[k]]
     c.setdefault("u", 0)
     c.setdefault("prior", "none")
+    c.setdefault("entry", "simulator")
     return c
 
 
@@ -89,22 +90,22 @@ def _scan(group: dict):
 
 
 def scan_groups(preds: list[dict]) -> list[dict]:
-    """Rows of a scan = pool1 / const1 cases at the scan's fixed tolerance 1e-6 (the worker has no tolerance
-    argument), default initial values path; one scan per (norm mode, initial value) and one more that scans the
-    initial value itself."""
-    rows = [p for p in preds if p["case"]["net"] in ("pool1", "const1") and p["case"]["td"] == 1000000
-            and not p["case"]["user"] and not p["fragile"] and p["case"]["u"] == 0 and p["case"]["prior"] == "none"]
+    """Rows of a scan = the cases the specification marks entry = "scan" (pool1 / const1 at the scan's fixed tolerance
+    1e-6; concentrations of order 1 and of order 1e-5): one scan per (norm mode, scale, initial value) and one more
+    per (norm mode, scale) that scans the initial value itself."""
+    rows = [p for p in preds if p["case"]["entry"] == "scan" and not p["fragile"]]
     groups = []
     for rel in (False, True):
-        sel = [p for p in rows if p["case"]["rel"] == rel]
-        by_y0: dict = {}
-        for p in sel:
-            by_y0.setdefault(sk.y0_of(p["case"])[0], []).append(p)
-        for y0, ps in sorted(by_y0.items()):
-            if len(ps) >= 2:
-                groups.append({"rel": rel, "scan_y0": False, "preds": ps, "cases": [p["case"] for p in ps]})
-        if sel:
-            groups.append({"rel": rel, "scan_y0": True, "preds": sel, "cases": [p["case"] for p in sel]})
+        for u in sorted({p["case"]["u"] for p in rows}):
+            sel = [p for p in rows if p["case"]["rel"] == rel and p["case"]["u"] == u]
+            by_y0: dict = {}
+            for p in sel:
+                by_y0.setdefault(sk.y0_of(p["case"])[0], []).append(p)
+            for y0, ps in sorted(by_y0.items()):
+                if len(ps) >= 2:
+                    groups.append({"rel": rel, "scan_y0": False, "preds": ps, "cases": [p["case"] for p in ps]})
+            if sel:
+                groups.append({"rel": rel, "scan_y0": True, "preds": sel, "cases": [p["case"] for p in sel]})
     return groups
 
 
@@ -132,13 +133,14 @@ def run(ctx: Ctx) -> int:
             ("nan_zero", "SteadyLoop_nan_zero.cfg", "SuccessIsSteady"),
             ("nan_grow", "SteadyLoop_nan_grow.cfg", "AccumFails"),
             ("stale_flux", "SteadyLoop_stale_flux.cfg", "FluxesBalance"),
+            ("scan_abs", "SteadyLoop_scan_abs.cfg", "SuccessIsSteady"),
             ("grid", "SteadyLoop_quick.cfg" if ctx.quick else "SteadyLoop_full.cfg", None)]
 
     def _job(j):
         return ctx.tlc("SteadyLoop.tla", j[1], tag=j[0], expect_violation=j[2] is not None,
-                       workers=2 if j[2] is not None else 8)
+                       workers=2 if j[2] is not None else 8, jvm=["-Xmx2g" if j[2] is not None else "-Xmx6g"])
 
-    with ThreadPoolExecutor(max_workers=9) as ex:
+    with ThreadPoolExecutor(max_workers=10) as ex:
         outs = list(ex.map(_job, jobs))
     for (tag, cfg, inv), r in zip(jobs, outs):
         if inv is not None:
@@ -154,6 +156,7 @@ def run(ctx: Ctx) -> int:
         "undefined norm counts as converged, identically-zero variable, relative norm": "SuccessIsSteady violated",
         "undefined norm counts as converged, growth overflowing within the budget": "AccumFails violated",
         "fluxes of a later steady-state point evaluated under an earlier segment's parameters": "FluxesBalance violated",
+        "scan worker that drops rel_norm (always the absolute norm), tiny pools, relative norm asked": "SuccessIsSteady violated",
         "reporter that hands back earlier results after a failed search": "Plumbing violated (history: simulate, then "
                                                                           "a failed steady-state search)"}
     grid = outs[-1]
@@ -192,7 +195,7 @@ def run(ctx: Ctx) -> int:
 
     # ---- real runs ---------------------------------------------------------------------------------------------
     everything = [dict(p, origin="grid") for p in preds] + [dict(p, origin="random") for p in rpreds]
-    live = [p for p in everything if not p["fragile"]]
+    live = [p for p in everything if not p["fragile"] and p["case"]["entry"] == "simulator"]
     rep.notes["fragile_excluded"] = len(everything) - len(live)
     results = pmap(_check, live, chunk=16)
     outside = 0
